@@ -72,7 +72,11 @@ func (f *File) String() string {
 
 // Desc is a JSON-able description.
 func (f *File) Desc() map[string]interface{} {
-	return map[string]interface{}{"id": f.ID, "blocks": f.Blocks, "last_len": f.LastLen, "root": f.Root.String()[:12], "chunks": len(f.Chunks)}
+	root := f.Root.String()
+	if len(root) > 12 {
+		root = root[:12]
+	}
+	return map[string]interface{}{"id": f.ID, "name": f.Name, "blocks": f.Blocks, "last_len": f.LastLen, "root": root, "chunks": len(f.Chunks)}
 }
 
 // World is source node + node under test + files.
@@ -318,6 +322,21 @@ func Collect(n *mininode.Node, max int) (rounds int, done bool, collected uint64
 		}
 	}
 	return rounds, false, collected, nil
+}
+
+// EntryRef is the file reference the manifest of f maps its path to (read from the node's
+// local store).
+func (w *World) EntryRef(f *File) (boson.Address, error) {
+	ls := loadsave.NewReadonly(w.N.Store, storage.ModeGetLookup)
+	m, err := manifest.NewDefaultManifestReference(f.Root, ls)
+	if err != nil {
+		return boson.ZeroAddress, err
+	}
+	e, err := m.Lookup(context.Background(), f.Name)
+	if err != nil {
+		return boson.ZeroAddress, err
+	}
+	return e.Reference(), nil
 }
 
 // ReadLocal reads the file content from the local store only (no network, lookup mode: no
